@@ -273,6 +273,18 @@ class Engine(ExprMixin, CallMixin):
             self.assumes_used.add(ast.unparse(v)[:200])
             st.assume(c)
             return [Outcome("normal", st)]
+        if isinstance(v, ast.Yield):
+            # a @contextmanager generator: at `yield` control goes to the body of the caller's `with` statement, which may do
+            # anything its (assumed) contract allows, including raising into the generator.  The contract module names that
+            # contract as funcs["yield_body"]; the yielded value itself is not interpreted.
+            fv = self.funcs.get("yield_body")
+            if fv is None or fv.kind != "contract":
+                raise Unsupported("yield without a yield_body contract")
+            call = ast.Call(func=ast.Name(id="yield_body", ctx=ast.Load()), args=[], keywords=[])
+            ast.copy_location(call, stmt)
+            ast.fix_missing_locations(call)
+            self.call_contract(fv.info, call, st, None)
+            return self.drain_raises([Outcome("normal", st)])
         # defaultdict auto-insert:  `d[k]` as an expression statement
         if isinstance(v, ast.Subscript):
             lv = self.lvalue(v.value, st)
@@ -314,6 +326,25 @@ class Engine(ExprMixin, CallMixin):
                 self.assign(t, v, st, stmt)
             return [Outcome("normal", st)]
         tgt = stmt.targets[0]
+        if isinstance(tgt, (ast.Tuple, ast.List)) and isinstance(stmt.value, (ast.Tuple, ast.List)) and len(tgt.elts) == len(stmt.value.elts) \
+                and not any(isinstance(e, ast.Starred) for e in list(tgt.elts) + list(stmt.value.elts)):
+            # a, b = x, y : all right-hand sides first (each typed by its target), then the assignments left to right
+            wants = []
+            for t in tgt.elts:
+                w = None
+                if isinstance(t, ast.Name):
+                    w = self.local_type(t.id, st)
+                elif isinstance(t, ast.Attribute):
+                    lv = self.lvalue(t.value, st)
+                    if lv is not None:
+                        b = self.read_path(st, *lv)
+                        if isinstance(b, SV) and isinstance(b.ty, T.Rec):
+                            w = b.ty.fields.get(t.attr)
+                wants.append(w)
+            vals = [self.deref(st, self.eval_rhs(e, st, w)) for e, w in zip(stmt.value.elts, wants)]
+            for t, v in zip(tgt.elts, vals):
+                self.assign(t, v, st, stmt)
+            return [Outcome("normal", st)]
         want = None
         if isinstance(tgt, ast.Name):
             want = self.local_type(tgt.id, st)
